@@ -2,11 +2,13 @@ package mon
 
 import (
 	"bytes"
+	"encoding/binary"
 	"fmt"
 	"io"
 	"os"
 	"path/filepath"
 	"sort"
+	"strings"
 
 	"github.com/KevoDB/kevo/pkg/engine"
 	"github.com/KevoDB/kevo/pkg/wal"
@@ -21,7 +23,7 @@ func init() {
 		Level: "fault_enumeration",
 		Rule: "a database with a log of 10-150 units (puts, deletes, batches, transactions; values from empty to several fragments) in 1-3 log files is written with immediate sync while the " +
 			"monitor records every unit's end offset by stat (observed, not derived from the format). Faults on a copy: every truncation length of the newest file (exhaustive up to 3KB, else " +
-			"record boundaries +-8 and PRNG interior offsets) and single-byte corruptions in any file at header (crc/length/type) and payload positions with value classes bit flip/0x00/0xFF/+1. " +
+			"unit boundaries +-8, record boundaries inside a unit (between fragments / batch records) +-1 and PRNG interior offsets) and single-byte corruptions in any file at header (crc/length/type) and payload positions with value classes bit flip/0x00/0xFF/+1. " +
 			"Oracles: ReplayWALDir returns P ++ T with P exactly the entries that end before the first damaged byte (plus all entries of earlier files) and every element of T byte-identical to an " +
 			"appended entry at or after the damage, at most once; NewEngineFacade succeeds, no key outside the appended set, every key reads as one of its appended writes not older than its last " +
 			"write in the intact prefix or in an undamaged file, no log file moved away; then 3 more acknowledged writes, close, reopen: they must be present. " +
@@ -256,6 +258,41 @@ func runC10(c *core.Ctx, res *core.Result) {
 			add(int64(r.Intn(int(sizes[last]))), "interior")
 		}
 	}
+	// physical record boundaries that are not unit ends: the file stops between two fragments of one entry, or between two
+	// records of one batch (walks the 7-byte record headers of the undamaged file)
+	if raw, rerr := os.ReadFile(files[last]); rerr == nil {
+		unitEnd := map[int64]bool{}
+		for _, u := range units {
+			if u.file == last {
+				unitEnd[u.end] = true
+			}
+		}
+		var inner []int64
+		for pos := int64(0); pos+7 <= int64(len(raw)); {
+			pos += 7 + int64(binary.LittleEndian.Uint16(raw[pos+4:pos+6]))
+			if pos < int64(len(raw)) && !unitEnd[pos] {
+				inner = append(inner, pos)
+			}
+		}
+		have := map[int64]bool{}
+		for _, f := range faults {
+			have[f.pos] = true
+		}
+		for n := 0; n < 12 && len(inner) > 0; n++ {
+			i := r.Intn(len(inner))
+			for d := int64(-1); d <= 1; d++ {
+				if p := inner[i] + d; !have[p] {
+					have[p] = true
+					cl := "inner_record_boundary"
+					if d != 0 {
+						cl = "inner_record_boundary+-1"
+					}
+					faults = append(faults, fault{trunc: true, file: last, pos: p, class: cl})
+				}
+			}
+			inner = append(inner[:i], inner[i+1:]...)
+		}
+	}
 	ncorr := 40
 	if c.Thorough {
 		ncorr = 90
@@ -330,6 +367,7 @@ func runC10(c *core.Ctx, res *core.Result) {
 			fh.Close()
 		}
 		res.Count("faults_"+kind, 1)
+		res.Count("faults_at_"+strings.ReplaceAll(ft.class, "+-", "_pm"), 1)
 		what := fmt.Sprintf("%s file %d/%d (%d bytes) at byte %d (%s)", kind, ft.file+1, len(files), sizes[ft.file], ft.pos, ft.class)
 		if !ft.trunc {
 			what += fmt.Sprintf(" 0x%02x->0x%02x", data[ft.file][ft.pos], ft.val)
@@ -478,6 +516,13 @@ func runC10(c *core.Ctx, res *core.Result) {
 			if i == 1 {
 				k = []byte(allKeys[r.Intn(len(allKeys))])
 			}
+			if i == 2 && (strings.HasPrefix(ft.class, "inner_record_boundary") || r.Chance(25)) {
+				// an entry larger than one record: its fragments land behind whatever the recovery left in the log
+				for len(v) < 33000+r.Intn(70000) {
+					v = append(v, byte('a'+len(v)%26))
+				}
+				res.Count("fragmented_writes_after_recovery", 1)
+			}
 			werr = e2.Put(k, v)
 			post = append(post, [2][]byte{k, v})
 		}
@@ -496,6 +541,18 @@ func runC10(c *core.Ctx, res *core.Result) {
 			if gerr != nil || !bytes.Equal(v, kvp[1]) {
 				res.Violate("post_recovery_write_lost", fmt.Sprintf("%s: a write acknowledged after the recovery (%s=%s) reads %s (err %v) after the next restart", what, kv.Q(kvp[0]), kv.Q(kvp[1]), kv.Q(v), gerr), feat)
 				break
+			}
+		}
+		if len(res.Violations) == 0 {
+			if it, ierr := e3.GetIterator(); ierr == nil {
+				it.SeekToFirst()
+				for _, p := range kv.Drain(it, 1<<20) {
+					_, known := writes[string(p.K)]
+					if !known && !p.Tomb && !strings.HasPrefix(string(p.K), "post-") {
+						res.Violate("damaged_log_state_wrong", fmt.Sprintf("%s: after the second recovery the database contains key %s = %s which was never appended", what, kv.Q(p.K), kv.Q(p.V)), feat)
+						break
+					}
+				}
 			}
 		}
 		e3.Close()
